@@ -107,7 +107,8 @@ fn python_oracle(cases: &[Case]) -> Option<Vec<Value>> {
 }
 
 fn conv_of(fmt: &str) -> String {
-	// last conversion letter of the first code, for class keys
+	// conversion letter of the first code that is not a literal `%%`, for class keys
+	let fmt = fmt.replace("%%", "");
 	let mut it = fmt.chars().skip_while(|c| *c != '%').skip(1);
 	let mut in_key = false;
 	for c in it.by_ref() {
